@@ -424,6 +424,22 @@ def probe_leftover(ctx, specs):
                                       % (pre, site, final, st[0], (" with different " + d) if d else "", st_f[0]),
                                       {"spec": spec, "history": hist})
     ctx.corr("leftover probe: failed call without reuse, then only_update+reuse call == fresh net", n, bad)
+    # an empty dict in the cache key is as good as no key (premise of cache_filled_only_at_listed_sites)
+    n = bad = 0
+    for p, spec in specs:
+        for mode in (["hydraulics", "bidirectional"] if p == "heat" else ["hydraulics"]):
+            final = {"mode": mode, "use_numba": False, "only_update_hydraulic_matrix": True,
+                     "reuse_internal_data": True}
+            a, b = gen.build(spec), gen.build(spec)
+            a["_internal_data"] = dict()
+            sa, sb = H.do_run(a, final), H.do_run(b, final)
+            n += 1
+            if sa[0] != sb[0] or H.diff_snap(H.snap_results(a), H.snap_results(b)):
+                bad += 1
+                ctx.violation({"kind": "empty-cache-not-absent", "mode": mode},
+                              "pipeflow(%s) on a net with net['_internal_data'] = {} differs from the net without the key"
+                              % final, {"spec": spec})
+    ctx.corr("empty cache dict == absent cache key for a call with reuse", n, bad)
 
 
 def probe_description_objects(ctx, specs):
@@ -468,6 +484,75 @@ def probe_description_objects(ctx, specs):
                                       {"spec": spec, "history": hist})
     ctx.corr("description-object probe: calls around fluid / standard-type changes == fresh copy in the same state",
              n, bad)
+
+
+CARRIED = {"sequential": ["_pit", "_old_pit", "converged"],
+           "bidirectional": ["_pit", "_old_pit", "converged", "_active_pit"]}
+
+
+def transient_monitor(ctx, specs):
+    """companion of transient_carried_keys: several transient steps on ONE net object vs, for every later step, a
+    fresh copy of the pristine net that carries the current description and exactly the listed internal keys of the
+    previous step - must give bit-identical results (the exception set is sufficient); without "_pit" the step must
+    not reproduce them (the set is not vacuous)"""
+    from harness import gen, c12_hist as H
+    n = bad = needed = 0
+    for p, spec in specs:
+        if p != "heat":
+            continue
+        for mode in ("sequential", "bidirectional"):
+            net0 = gen.build(spec)
+            a = copy.deepcopy(net0)
+            kw = {"mode": mode, "transient": True, "dt": ctx.rng.choice([30., 120.]), "use_numba": False, "iter": 30}
+            if H.do_run(a, dict(kw, simulation_time_step=0))[0] != "ok":
+                continue
+            edits = []
+            for k in (1, 2, 3):
+                cand = [c for c in editable_cells(a, ctx.rng) if c[0] in ("heat_consumer", "circ_pump_pressure",
+                                                                           "circ_pump_mass", "heat_exchanger", "pipe")
+                        and isinstance(c[3], float) and c[2] in ("qext_w", "controlled_mdot_kg_per_s", "t_flow_k",
+                                                                  "plift_bar", "u_w_per_m2k", "text_k", "deltat_k",
+                                                                  "treturn_k") and abs(c[3]) < 1e6 and c[3] > 0]
+                if cand:
+                    t, row, c, val = ctx.rng.choice(cand)
+                    old = H.cell(a, t, row, c)
+                    val = (old or 1.0) * ctx.rng.choice([0.8, 1.1, 1.25]) if old else val
+                    edits.append(["edit", t, row, c, val])
+                    H.apply_user_op(a, edits[-1], net0)
+                carried = {key: copy.deepcopy(a[key]) for key in CARRIED[mode] if key in a}
+                st_a = H.do_run(a, dict(kw, simulation_time_step=k))
+                b = copy.deepcopy(net0)
+                for e in edits:
+                    H.apply_user_op(b, e, net0)
+                for key, v in carried.items():
+                    b[key] = v
+                st_b = H.do_run(b, dict(kw, simulation_time_step=k))
+                n += 1
+                ra, rb = H.snap_results(a), H.snap_results(b)
+                if st_a[0] != "ok":
+                    # observation (transient is outside the 20 properties): a failing transient step leaves the
+                    # res_internal table of the previous step on the net; it is not a carried key
+                    ra.pop("res_internal", None)
+                    rb.pop("res_internal", None)
+                d = None if st_a[0] != st_b[0] else H.diff_snap(ra, rb)
+                if st_a[0] != st_b[0] or d:
+                    bad += 1
+                    ctx.violation({"kind": "transient-carried-keys", "mode": mode, "where": (d or "outcome").split("[")[0]},
+                                  "transient step %d (%s): the net with the previous steps gives %s, a fresh net carrying "
+                                  "the description and %s gives %s%s" % (k, mode, st_a[0], CARRIED[mode], st_b[0],
+                                                                           (" with different " + d) if d else ""),
+                                  {"spec": spec, "kwargs": kw, "edits": edits, "step": k})
+                # necessity: without the carried pit the step cannot be reproduced
+                c2 = copy.deepcopy(net0)
+                for e in edits:
+                    H.apply_user_op(c2, e, net0)
+                st_c = H.do_run(c2, dict(kw, simulation_time_step=k))
+                if st_c[0] != st_a[0] or H.diff_snap(H.snap_results(a), H.snap_results(c2)):
+                    needed += 1
+                if st_a[0] != "ok":
+                    break
+    ctx.corr("transient monitor: step k on the net with history == fresh net carrying exactly the keys of "
+             "transient_carried_keys (bit-identical)", n, bad, "steps not reproducible without the carried keys: %d" % needed)
 
 
 # ------------------------------------------------------------------------------------------ main
@@ -634,6 +719,11 @@ def run(ctx):
             extra.append((want.pop(0), sp))
     probe_description_objects(ctx, extra + (specs if ctx.quick else specs[:20]))
     heat_vs_sequential(ctx, specs)
+    try:
+        transient_monitor(ctx, specs if ctx.quick else specs[:30])
+    except Exception:  # noqa: BLE001
+        import traceback
+        ctx.broken("harness", "transient monitor", traceback.format_exc()[-800:])
     if not proved and not ctx.violations:
         ctx.note("obligation broken and the differential found no concrete input")
 
